@@ -237,7 +237,7 @@ def _stack_parts(k):
 
 
 @lemma('E-stack', 'C06', quick=_stack_parts(2) + [dict(p, M=2) for p in _stack_parts(3)] + [dict(p, M=1, live=True) for p in _stack_parts(5)],
-       thorough=_stack_parts(2) + [dict(p, M=7, timeout=5000) for p in _stack_parts(3)] + [dict(p, M=4, timeout=5000) for p in _stack_parts(4)]
+       thorough=_stack_parts(2) + [dict(p, M=7, timeout=5000) for p in _stack_parts(3)] + [dict(p, M=2, live=True, timeout=5000) for p in _stack_parts(4)]
        + [dict(p, M=2, live=True, timeout=5000) for p in _stack_parts(5)] + [dict(p, M=1, live=True, timeout=5000) for p in _stack_parts(6)],
        timeout=900, per_path=60,
        stubs=['Delimiter objects built directly (RunStr for .type, positions 100*i)', 'source string -> AnyStr (never influences control flow)'],
@@ -337,14 +337,12 @@ def _str_parts_quick():
 
 
 def _str_parts(N):
-    out = [{'k': k} for k in range(1, min(N, 3) + 1)]
+    """thorough: every string up to length 5, and length 6 for strings that start with a delimiter"""
+    out = [{'k': k} for k in range(1, 4)]
     for k in range(4, N + 1):
-        for a in ALPH:
-            if k == 4 and a != '*':
-                out.append({'k': k, 'c1': a})
-            else:
-                for b in ALPH:
-                    out.append({'k': k, 'c1': a, 'c2': b})
+        for a in (ALPH if k < 6 else '*_'):
+            for b in ALPH:
+                out.append({'k': k, 'c1': a, 'c2': b})
     return out
 
 
@@ -354,7 +352,7 @@ def _str_parts(N):
        note='every string over {a, space, *, _, .} of length k: same (start, end, kind) matches as the reference; no exception')
 def e_str(c1: int, c2: int, c3: int, c4: int, c5: int, c6: int, c7: int) -> bool:
     """
-    pre: all_in(ALPH, P('k'), c1, c2, c3, c4, c5, c6, c7) and fixed(c1, 'c1') and fixed(c2, 'c2')
+    pre: fixed(c1, 'c1') and fixed(c2, 'c2') and all_in(ALPH, P('k'), c1, c2, c3, c4, c5, c6, c7)
     post: _
     """
     s = S(P('k'), c1, c2, c3, c4, c5, c6, c7)
